@@ -284,8 +284,14 @@ func serialReplay(args []string) *Result {
 			jj, _, _ := src.build()
 			var out []byte
 			var es string
-			for _, c := range h {
+			for i, c := range h {
 				out, es = accessors[c](&jj)
+				if i < len(h)-1 {
+					// what a call returns belongs to the caller: writing into it must not reach later results
+					for x := range out {
+						out[x] = '#'
+					}
+				}
 			}
 			last := h[len(h)-1]
 			res.Cases++
